@@ -6,7 +6,7 @@ are run by one `cargo kani` invocation (cheap kernels share the compile step).""
 
 class Job:
     def __init__(self, name, pkg, module, props, tier="quick", cap_s=300, mem_gb=12, group=None,
-                 owner=None, cls="A", slots=1, note="", encodes=(), bounds="", kargs=()):
+                 owner=None, cls="A", slots=1, note="", encodes=(), bounds="", kargs=(), also=()):
         self.name = name              # harness function name
         self.pkg = pkg                # cargo package
         self.module = module          # module path of the harness inside the crate
@@ -22,6 +22,7 @@ class Job:
         self.encodes = list(encodes)  # real functions symbolically executed
         self.bounds = bounds
         self.kargs = list(kargs)      # extra cargo-kani flags (part of the cache key)
+        self.also = list(also)        # umbrella properties that own every tagged assertion of this job
 
     @property
     def path(self):
@@ -98,9 +99,9 @@ add("k_validate_state_dists", MB, "state::verif_kani", ["C12"], cap_s=600, mem_g
     bounds="any action kind with / without limit, both counters with / without distribution; Dist::validate replaced by a "
            "ghost that may reject any one distribution")
 for fam, tier, cap in (("uniform", "quick", 300), ("normal", "quick", 300), ("lognormal", "quick", 300),
-                       ("skewnormal", "quick", 300), ("binomial", "quick", 300), ("geometric", "thorough", 900),
-                       ("pareto", "quick", 300), ("weibull", "quick", 300), ("poisson", "thorough", 900),
-                       ("gamma", "thorough", 900), ("beta", "thorough", 900)):
+                       ("skewnormal", "quick", 300), ("binomial", "quick", 300), ("geometric", "quick", 300),
+                       ("pareto", "quick", 300), ("weibull", "quick", 300), ("poisson", "quick", 300),
+                       ("gamma", "quick", 300), ("beta", "quick", 300)):
     add("k_dist_validate_" + fam, MB, "dist::verif_kani", ["C12"], tier=tier, cap_s=cap, mem_gb=12,
         group="c12_dist_" + fam, encodes=["Dist::validate (%s)" % fam, "rand_distr constructor"],
         bounds="parameters any f64 bit pattern (trials any u64); start/max any f64")
@@ -217,6 +218,19 @@ add("s_bottleneck_new", SIM, SK, ["C19"], cap_s=300, mem_gb=12, group="s_bottlen
 add("s_pick_next_two", SIM, SK, ["C14", "C15", "C19"], cap_s=1200, mem_gb=16, group="s_pick_next_two", owner="C19",
     encodes=["pick_next", "queue_peek::peek_queue", "SimQueue::peek / pop", "peek_scheduled_* (empty)"],
     bounds="two queued NormalSent packets (one per side) at any two instants up to 1000 s after now, no machines, no blocking")
+
+
+add("s_pick_next_blocked", SIM, SK, ["C16", "C15", "C19"], cap_s=1200, mem_gb=20, group="s_pick_next_blocked", owner="C19",
+    encodes=["pick_next", "queue_peek::peek_queue", "queue_peek::peek_queue_earliest_side", "peek_blocked_exp", "SimQueue::peek_blocking / pop"],
+    bounds="one side blocked until any instant up to 1000 s ahead (bypassable or not), one TunnelSent packet (normal or padding, "
+           "bypass flag any) queued on that side at any instant up to 1000 s ahead, no machines, no pending timers")
+
+
+# C05 (actions are exactly what the documented semantics prescribe) is broken by ANY semantic deviation
+# of the framework: it co-owns every tagged assertion of the framework harnesses it runs.
+for _j in JOBS:
+    if _j.pkg == MB and "C05" in _j.props:
+        _j.also = ["C05"]
 
 
 def jobs_for(prop, tier):
